@@ -160,6 +160,11 @@ func extractWriter(w *World, fn *ssa.Function) ([]wPath, string) {
 						problem = "unrecognised PutUint at " + w.pos(in.Pos())
 						return
 					}
+					// the length is written as it is: no conversion on the way is narrower than the prefix
+					if nb := narrowestConv(val); nb > 0 && nb < width {
+						problem = fmt.Sprintf("the %d-byte length prefix is computed through a %d-byte integer (lengths >= 2^%d wrap) at %s", width, nb, 8*nb, w.pos(in.Pos()))
+						return
+					}
 					if n, ok := arrayLen(sl.X.Type()); !ok || int(n) != width || sl.Low != nil || sl.High != nil {
 						problem = "PutUint destination is not a whole array of the right width at " + w.pos(in.Pos())
 						return
@@ -1106,4 +1111,35 @@ func ruleCodecRejects(c *Checker, fn *ssa.Function, b ssa.Value, label string) {
 		c.decide(bad == "", "CODEC", key, instrPos(ret), "decided by tag tests and 'input too short' guards only",
 			"this "+kind+" return of the reader "+bad+": the reader's accepted language differs from what the writer emits (a serialisable message is refused or read differently)")
 	})
+}
+
+// narrowestConv returns the size in bytes of the narrowest integer type a value passes
+// through on its chain of conversions (0 if there is no sized integer conversion).
+func narrowestConv(v ssa.Value) int {
+	min := 0
+	for i := 0; i < 8; i++ {
+		v = unwrapLoadAlloc(v)
+		cv, ok := v.(*ssa.Convert)
+		if !ok {
+			break
+		}
+		if b, ok := cv.Type().Underlying().(*types.Basic); ok {
+			sz := 0
+			switch b.Kind() {
+			case types.Uint8, types.Int8:
+				sz = 1
+			case types.Uint16, types.Int16:
+				sz = 2
+			case types.Uint32, types.Int32:
+				sz = 4
+			case types.Uint64, types.Int64, types.Int, types.Uint:
+				sz = 8
+			}
+			if sz > 0 && (min == 0 || sz < min) {
+				min = sz
+			}
+		}
+		v = cv.X
+	}
+	return min
 }
